@@ -1,8 +1,8 @@
 (* Property C12 — instance startup profile. Statements only; proofs live in Proofs/StartLoopProofs.v. *)
 From Coq Require Import List ZArith Bool Arith Lia.
 From Coq Require Import Permutation.
-From PV Require Import Model.StartLoop Model.Instance Model.StartAsync Model.StartWaiter Model.StartFire.
-From PV Require Import Proofs.StartLoopProofs Proofs.StartAsyncProofs Proofs.StartWaiterProofs Proofs.StartFireProofs.
+From PV Require Import Model.StartLoop Model.Instance Model.StartAsync Model.StartWaiter Model.StartFire Model.StartProfile Model.StartPerInst.
+From PV Require Import Proofs.StartLoopProofs Proofs.StartAsyncProofs Proofs.StartWaiterProofs Proofs.StartFireProofs Proofs.StartProfileProofs Proofs.StartPerInstProofs.
 From PV Require Model.Waiter.
 Import ListNotations.
 Local Open Scope Z_scope.
@@ -289,3 +289,110 @@ Example C12_fire_nil_as_out_of_ammo_differs :
             /\ spc (base (fa f)) = LEnd (ECancelled OutOfAmmo) /\ cancelled (base (fa f)) = Some OutOfAmmo
             /\ live_ids (fa f) = [0%nat] /\ said_no f = false /\ length (items f) = 3%nat /\ shots f = [].
 Proof. eexists. split; [vm_compute; reflexivity|]. vm_compute. repeat split; reflexivity. Qed.
+
+
+(* ------------------------------------------------------------------------------------------------ *)
+(* Round 7: how many tokens a CONFIGURED profile releases (Model/StartProfile.v), and instances firing
+   their OWN rps profile (Model/StartPerInst.v).                                                      *)
+
+(* const profile of rate opn/opd per second for d ns: its count n is floor(rate x duration) - never more
+   tokens than rate x duration, and not a whole period less; token i (0 <= i < n) has its whole period
+   inside the duration, is released at floor(i/rate) and strictly inside the duration *)
+Theorem C12_const_count : forall opn opd d, 0 < opn -> 0 < opd -> 0 <= d ->
+  (0 <= const_count opn opd d
+   /\ const_count opn opd d * (opd * ns_per_s) <= opn * d < (const_count opn opd d + 1) * (opd * ns_per_s))
+  /\ (forall i, 0 <= i < const_count opn opd d ->
+        (i + 1) * (opd * ns_per_s) <= opn * d
+        /\ opn * const_offset opn opd i <= i * (opd * ns_per_s) < opn * (const_offset opn opd i + 1)
+        /\ 0 <= const_offset opn opd i < d)
+  /\ (forall start tk, In tk (const_tokens start opn opd d) -> start <= tk < start + d).
+Proof.
+  exact (fun opn opd d Hn Hd H0 =>
+    conj (const_count_floor opn opd d Hn Hd H0)
+      (conj (fun i Hi => const_token_period opn opd d i Hn Hd H0 Hi)
+            (fun start tk Hin => const_tokens_inside start opn opd d tk Hn Hd H0 Hin))).
+Qed.
+Print Assumptions C12_const_count.
+
+(* the token stream of a configured profile (once / pause / const by rate / instance_step parts) has exactly
+   the sum of the counts of its parts *)
+Theorem C12_profile_count : forall ps start, Z.of_nat (length (pflatten start ps)) = profile_count ps.
+Proof. exact pflatten_length. Qed.
+Print Assumptions C12_profile_count.
+
+(* the start loop over a configured profile: in EVERY reachable state of every trace the instances are at most
+   the count of the configured profile; for a const startup profile: instances <= rate x duration *)
+Theorem C12_profile_never_more : forall ps l t0 s,
+  srun l (sinit (pflatten t0 ps) t0) = Some s ->
+  Z.of_nat (length (started s)) <= profile_count ps.
+Proof. exact profile_never_more. Qed.
+Print Assumptions C12_profile_never_more.
+
+Theorem C12_const_startup_never_more : forall opn opd d l t0 s, 0 < opn -> 0 < opd -> 0 <= d ->
+  srun l (sinit (pflatten t0 [PRate opn opd d]) t0) = Some s ->
+  Z.of_nat (length (started s)) * (opd * ns_per_s) <= opn * d.
+Proof. exact const_startup_never_more. Qed.
+Print Assumptions C12_const_startup_never_more.
+
+(* non-vacuity: 2.5 instances per second for one second = two tokens (0 and 0.4 s), two instances, profile
+   exhausted *)
+Example C12_const_fractional_run :
+  const_count 25 10 1000000000 = 2
+  /\ pflatten 0 [PRate 25 10 1000000000] = [0; 400000000]
+  /\ exists s, srun (repeat (SLoop false false) 4 ++ [STick 400000000] ++ repeat (SLoop false false) 6)
+                    (sinit (pflatten 0 [PRate 25 10 1000000000]) 0) = Some s
+               /\ spc s = LEnd EExhausted /\ length (started s) = 2%nat.
+Proof.
+  split; [reflexivity|]. split; [reflexivity|]. eexists. split; [vm_compute; reflexivity|]. vm_compute. split; reflexivity.
+Qed.
+
+(* sensitivity: with the product rounded to the nearest whole number the same profile has a third token
+   (at 0.8 s, still inside the duration), the loop makes a third instance, and the conclusion of
+   C12_const_startup_never_more is false: 3 instances > 2.5 *)
+Example C12_const_rounded_differs :
+  const_count_by RoundNearest 25 10 1000000000 = 3
+  /\ pflatten_by RoundNearest 0 [PRate 25 10 1000000000] = [0; 400000000; 800000000]
+  /\ exists s, srun (repeat (SLoop false false) 4 ++ [STick 400000000] ++ repeat (SLoop false false) 4
+                     ++ [STick 400000000] ++ repeat (SLoop false false) 6)
+                    (sinit (pflatten_by RoundNearest 0 [PRate 25 10 1000000000]) 0) = Some s
+               /\ spc s = LEnd EExhausted /\ length (started s) = 3%nat
+               /\ ~ (Z.of_nat (length (started s)) * (10 * ns_per_s) <= 25 * 1000000000).
+Proof.
+  split; [reflexivity|]. split; [reflexivity|]. eexists. split; [vm_compute; reflexivity|]. vm_compute.
+  split; [reflexivity|]. split; [reflexivity|]. intros H. apply H. reflexivity.
+Qed.
+
+(* rps-per-instance: every call of the schedule factory builds new schedule objects (Fresh).  In every trace
+   (any interleaving of the instances asking for tokens, whenever each was started): an instance has fired
+   exactly what is missing from its own profile, never more than its T tokens, and one that found its profile
+   exhausted and left has fired all T of them *)
+Theorem C12_perinst_own_profile : forall T l s, pirun Fresh l (piinit T) = Some s ->
+  forall id, (shots_of id s + rem s (obj_of Fresh id) = T)%nat
+             /\ (shots_of id s <= T)%nat
+             /\ (In id (pleft s) -> shots_of id s = T).
+Proof. exact (fun T l s H => perinst_own_profile Fresh T fresh_own l s H). Qed.
+Print Assumptions C12_perinst_own_profile.
+
+(* ... and as long as it has not fired its whole profile it has not left, and gets a token whenever it asks:
+   "an instance, once started, keeps firing until its RPS profile is exhausted" *)
+Theorem C12_perinst_keeps_firing : forall T l s id, pirun Fresh l (piinit T) = Some s ->
+  (shots_of id s < T)%nat ->
+  ~ In id (pleft s)
+  /\ exists s', pistep Fresh (PINext id) s = Some s' /\ shots_of id s' = S (shots_of id s) /\ pleft s' = pleft s.
+Proof. exact (fun T l s id H => perinst_keeps_firing Fresh T fresh_own l s id H). Qed.
+Print Assumptions C12_perinst_keeps_firing.
+
+(* non-vacuity: three instances, profiles of two tokens, instance 2 asks only after instance 0 has left *)
+Example C12_perinst_fresh_run :
+  exists s, pirun Fresh [PINext 0; PINext 1; PINext 0; PINext 0; PINext 2; PINext 1; PINext 2; PINext 2; PINext 1]%nat (piinit 2) = Some s
+            /\ shots_of 0 s = 2%nat /\ shots_of 1 s = 2%nat /\ shots_of 2 s = 2%nat /\ pleft s = [1; 2; 0]%nat.
+Proof. eexists. split; [vm_compute; reflexivity|]. vm_compute. repeat split; reflexivity. Qed.
+
+(* sensitivity: when the configuration decoded at factory creation is reused for every call, the nested
+   schedule objects of a list profile are the same for all instances: instance 1, started after instance 0
+   has fired, leaves at its first request without having fired anything - the conclusion of
+   C12_perinst_own_profile is false *)
+Example C12_perinst_decoded_once_differs :
+  exists s, pirun DecodedOnce [PINext 0; PINext 0; PINext 0; PINext 1]%nat (piinit 2) = Some s
+            /\ In 1%nat (pleft s) /\ shots_of 1 s = 0%nat /\ shots_of 0 s = 2%nat.
+Proof. eexists. split; [vm_compute; reflexivity|]. vm_compute. split; [left; reflexivity|split; reflexivity]. Qed.
